@@ -2,6 +2,7 @@ package main
 
 import (
 	"bytes"
+	"fmt"
 
 	"github.com/bufbuild/protocompile/ast"
 	"github.com/bufbuild/protocompile/experimental/verifharness/vhlib"
@@ -30,6 +31,8 @@ func ints(xs []int) []any {
 //	       spans   = for every item: ItemInfo Start/End as [line, col, offset]
 //	       nodes   = for every AST node: [startItem, endItem, Start line col off, End line col off]
 //	       errs    = position [line, col, offset] (start and end) of every reported error / warning
+//	       noast   = true when Parse returned the synthetic empty file (then only errs and data)
+//	       parse_panic = the panic value when parser.Parse itself panicked (then only errs and data)
 //	table: text + lines -> FileInfo built with NewFileInfo/AddLine (no lexer); pos as above
 func fileinfoCase(in map[string]any) map[string]any {
 	text := vhlib.Unhex(vhlib.Str(in, "text"))
@@ -55,8 +58,35 @@ func fileinfoCase(in map[string]any) map[string]any {
 			func(e reporter.ErrorWithPos) {
 				errs = append(errs, []any{pos(e.Start()), pos(e.End())})
 			})
-		fn, _ := parser.Parse("t.proto", bytes.NewReader(text), reporter.NewHandler(rep))
+		// the file handed to the lexer (a leading byte order mark is dropped by newLexer)
+		data := text
+		if bytes.HasPrefix(data, []byte{0xEF, 0xBB, 0xBF}) {
+			data = data[3:]
+		}
+		var fn *ast.FileNode
+		parsePanic := ""
+		func() {
+			defer func() {
+				if r := recover(); r != nil {
+					parsePanic = fmt.Sprint(r)
+				}
+			}()
+			fn, _ = parser.Parse("t.proto", bytes.NewReader(text), reporter.NewHandler(rep))
+		}()
+		if errs == nil {
+			errs = []any{}
+		}
+		if parsePanic != "" {
+			// the lexer/parser itself panicked (totality of the parser is property C12, not C13);
+			// the positions reported before that are still observations
+			return map[string]any{"parse_panic": parsePanic, "errs": errs, "data": vhlib.Hx(data)}
+		}
 		fi := fn.VerifFileInfo()
+		if fi.VerifDataLen() != len(data) {
+			// no AST at all: Parse returned the synthetic empty file, the lexer's FileInfo is out of reach;
+			// only the positions of the reported errors are observable
+			return map[string]any{"noast": true, "errs": errs, "data": vhlib.Hx(data)}
+		}
 		offs, lens := fi.VerifItems()
 		items := make([]any, len(offs))
 		spans := make([]any, len(offs))
@@ -79,18 +109,10 @@ func fileinfoCase(in map[string]any) map[string]any {
 			nodes = append(nodes, []any{int(n.Start()), int(n.End()), pos(ni.Start()), pos(ni.End())})
 			return nil
 		}})
-		// the file handed to the lexer (a leading byte order mark is dropped by newLexer)
-		data := text
-		if bytes.HasPrefix(data, []byte{0xEF, 0xBB, 0xBF}) {
-			data = data[3:]
-		}
 		ps := make([]any, 0, len(data)+1)
 		for off := 0; off <= len(data); off++ {
 			p := fi.SourcePos(off)
 			ps = append(ps, []int{p.Line, p.Col})
-		}
-		if errs == nil {
-			errs = []any{}
 		}
 		if nodes == nil {
 			nodes = []any{}
